@@ -321,6 +321,38 @@ func checkEncode(w *W, k lib.Kind, s, canonical string) {
 	}
 }
 
+// checkAcceptedRoundTrip: a string the library accepts at decoder k (whether or not the reference would) must
+// encode, and its encoding must decode to the same object (v2: the encoding is the input, byte for byte).
+func checkAcceptedRoundTrip(w *W, k lib.Kind, s string) {
+	v2, level := k.V2(), k.Level()
+	o, err, pan := lib.DecodeAuto(k, s)
+	if err != nil || pan != nil || o.IsNil() {
+		return
+	}
+	w.Eval(1)
+	w.Count("library_accepted_strings_from_edit_workload")
+	c := decodeCase(k, s, false)
+	enc, eerr, _ := o.Encode()
+	str, _ := o.String()
+	if eerr != nil || str != enc {
+		w.Violate(Violation{Monitor: "C10", Check: "encoding an accepted vector succeeds and String()==Encode()", Case: c, Observed: fmt.Sprint(enc, "|", str, "|", lib.ErrClass(eerr))})
+	}
+	if v2 && enc != s {
+		w.Violate(Violation{Monitor: "C10", Check: "the v2 encoding is byte-identical to the accepted input", Case: c, Observed: enc, Expected: s})
+	}
+	if !v2 {
+		if p := spec.Parse3(s, level); p.Accept && enc != p.V.Canonical(level) {
+			w.Violate(Violation{Monitor: "C10", Check: "Encode() returns the canonical vector", Case: c, Observed: enc, Expected: p.V.Canonical(level)})
+		}
+	}
+	o2, err2, _ := lib.DecodeAuto(k, enc)
+	if err2 != nil || o2.IsNil() {
+		w.Violate(Violation{Monitor: "C10", Check: "the encoding of an accepted vector is accepted by the same decoder", Case: c, Observed: lib.ErrClass(err2), Note: "encoding: " + enc})
+	} else if a, b := fullObs(o), fullObs(o2); a != b || !sameInts(o.Fields(), o2.Fields()) {
+		w.Violate(Violation{Monitor: "C10", Check: "decode(encode(x)) has the same fields, scores, severities and encoding", Case: c, Observed: b, Expected: a})
+	}
+}
+
 func runC10(r *Run) int {
 	r.CleanOut()
 	var nt atomic.Int64
@@ -366,33 +398,7 @@ func runC10(r *Run) int {
 		nSeeds := r.Pick(150, 900)
 		visit := func(w *W, s string, m *strMeta) {
 			for level := 0; level < 3; level++ {
-				k := kindOf(v2, level)
-				o, err, pan := lib.DecodeAuto(k, s)
-				if err != nil || pan != nil || o.IsNil() {
-					continue
-				}
-				w.Eval(1)
-				w.Count("library_accepted_strings_from_edit_workload")
-				c := decodeCase(k, s, false)
-				enc, eerr, _ := o.Encode()
-				str, _ := o.String()
-				if eerr != nil || str != enc {
-					w.Violate(Violation{Monitor: "C10", Check: "encoding an accepted vector succeeds and String()==Encode()", Case: c, Observed: fmt.Sprint(enc, "|", str, "|", lib.ErrClass(eerr))})
-				}
-				if v2 && enc != s {
-					w.Violate(Violation{Monitor: "C10", Check: "the v2 encoding is byte-identical to the accepted input", Case: c, Observed: enc, Expected: s})
-				}
-				if !v2 {
-					if p := spec.Parse3(s, level); p.Accept && enc != p.V.Canonical(level) {
-						w.Violate(Violation{Monitor: "C10", Check: "Encode() returns the canonical vector", Case: c, Observed: enc, Expected: p.V.Canonical(level)})
-					}
-				}
-				o2, err2, _ := lib.DecodeAuto(k, enc)
-				if err2 != nil || o2.IsNil() {
-					w.Violate(Violation{Monitor: "C10", Check: "the encoding of an accepted vector is accepted by the same decoder", Case: c, Observed: lib.ErrClass(err2), Note: "encoding: " + enc})
-				} else if a, b := fullObs(o), fullObs(o2); a != b || !sameInts(o.Fields(), o2.Fields()) {
-					w.Violate(Violation{Monitor: "C10", Check: "decode(encode(x)) has the same fields, scores, severities and encoding", Case: c, Observed: b, Expected: a})
-				}
+				checkAcceptedRoundTrip(w, kindOf(v2, level), s)
 			}
 		}
 		r.Parallel(3*nSeeds, 1, func(w *W, i int) {
@@ -623,6 +629,9 @@ func replayValid(r *Run, c Case) {
 	if k.V2() {
 		p := spec.Parse2(s, k.Level())
 		if !p.Accept {
+			if r.ID == "C10" { // a string the library (wrongly) accepted: the round-trip assertions on it
+				checkAcceptedRoundTrip(w, k, s)
+			}
 			fmt.Println("replay: not a valid v2 vector for the model:", s)
 			return
 		}
@@ -653,6 +662,9 @@ func replayValid(r *Run, c Case) {
 	}
 	p := spec.Parse3(s, k.Level())
 	if !p.Accept {
+		if r.ID == "C10" {
+			checkAcceptedRoundTrip(w, k, s)
+		}
 		fmt.Println("replay: not a valid v3 vector for the model:", s)
 		return
 	}
